@@ -306,7 +306,7 @@ void Track::set_octave(int param)
  */
 void Track::change_octave(int param)
 {
-	octave += param;
+	octave = (int)((unsigned)octave + (unsigned)param); // wraps instead of overflowing
 }
 
 //! Set the default duration.
